@@ -942,4 +942,178 @@ Section Refine.
         rewrite HD at 1. rewrite Hgm. eapply pos_step; [exact Hup | exact Hn | exact Hok |]. exists b, es, ridx. repeat split; auto. lia.
       + rewrite HlD, Hgm. rewrite (nth_flat _ _ _ _ Hn) by (rewrite Hk; lia). rewrite Hk. first [reflexivity | exact En | (symmetry; exact En)].
   Qed.
+
+  (* ================= the selected paths of first / last ================= *)
+  Lemma lseq_nonempty k : (k <= D)%nat -> lseq k <> [].
+  Proof.
+    induction k as [|k IH]; intro Hk.
+    - cbn [lseq]. destruct (Hld _ _ _ _ Hroot) as (_ & _ & Hne). exact Hne.
+    - cbn [lseq]. specialize (IH ltac:(lia)). destruct (lseq k) as [|it l] eqn:E; [congruence|].
+      cbn [flat_map]. pose proof (Hitems_all k ltac:(lia)) as F. rewrite E in F. inversion F as [|? ? Hit _]; subst.
+      pose proof (kids_pos it Hit). destruct (kids it); [cbn [length] in *; lia|discriminate].
+  Qed.
+
+  Lemma sdesc_first : forall c k, (k + c <= D)%nat -> sdesc MFirst k 0 c = Some 0%nat.
+  Proof.
+    induction c as [|c IH]; intros k Hk; [reflexivity|].
+    rewrite sdesc_S. pose proof (lseq_nonempty k ltac:(lia)) as Hne.
+    destruct (lseq k) as [|it l] eqn:E; [congruence|]. cbn [nth_error]. cbv zeta. cbn [sel].
+    pose proof (Hitems_all k ltac:(lia)) as F. rewrite E in F. inversion F as [|? ? Hit _]; subst.
+    pose proof (kids_pos it Hit) as Hp. destruct (Nat.ltb_spec 0 (length (kids it))); [|lia].
+    rewrite <- E. rewrite gstart_0. cbn [plus]. apply IH. lia.
+  Qed.
+
+  Lemma sroot_first : sroot MFirst (S D) = Some 0%nat.
+  Proof.
+    cbn [sroot sel]. cbv zeta. pose proof (lseq_nonempty 0 ltac:(lia)) as Hne. cbn [lseq] in Hne.
+    destruct (Nat.ltb_spec 0 (length root_items)); [|destruct root_items; [congruence|cbn [length] in *; lia]].
+    apply sdesc_first. lia.
+  Qed.
+
+  Lemma sdesc_last : forall c k, (k + c <= D)%nat ->
+    sdesc MLast k (length (lseq k) - 1) c = Some (length (lseq (k + c)) - 1)%nat.
+  Proof.
+    induction c as [|c IH]; intros k Hk; [replace (k + 0)%nat with k by lia; reflexivity|].
+    rewrite sdesc_S. pose proof (lseq_nonempty k ltac:(lia)) as Hne.
+    assert (Hl : (0 < length (lseq k))%nat) by (destruct (lseq k); [congruence|cbn [length]; lia]).
+    destruct (nth_error (lseq k) (length (lseq k) - 1)) as [pit|] eqn:E; [|apply nth_error_None in E; lia].
+    cbv zeta. cbn [sel].
+    assert (Hit : item_ok pit).
+    { pose proof (Hitems_all k ltac:(lia)) as F. rewrite Forall_forall in F. apply F. eapply nth_error_In. exact E. }
+    pose proof (kids_pos pit Hit) as Hp. destruct (Nat.ltb_spec (length (kids pit) - 1) (length (kids pit))); [|lia].
+    pose proof (gstart_S (lseq k) (length (lseq k) - 1) pit E) as HS.
+    replace (S (length (lseq k) - 1)) with (length (lseq k)) in HS by lia. rewrite gstart_all in HS.
+    replace (gstart (lseq k) (length (lseq k) - 1) + (length (kids pit) - 1))%nat with (length (lseq (S k)) - 1)%nat
+      by (cbn [lseq]; lia).
+    rewrite (IH (S k) ltac:(lia)). replace (S k + c)%nat with (k + S c)%nat by lia. reflexivity.
+  Qed.
+
+  Lemma sroot_last : sroot MLast (S D) = Some (length (lseq D) - 1)%nat.
+  Proof.
+    cbn [sroot sel]. cbv zeta. pose proof (lseq_nonempty 0 ltac:(lia)) as Hne. cbn [lseq] in Hne.
+    assert (Hl : (0 < length root_items)%nat) by (destruct root_items; [congruence|cbn [length]; lia]).
+    destruct (Nat.ltb_spec (length root_items - 1) (length root_items)); [|lia].
+    change root_items with (lseq 0). rewrite (sdesc_last D 0 ltac:(lia)). reflexivity.
+  Qed.
+
+  (* ================= refinement of the abstract cursor (operations that take no key) ================= *)
+  Definition es_all : list entry := lseq D.
+
+  Definition Rel (p : apos) (st : cstate) : Prop :=
+    match p with
+    | Fresh => cs_inner st = None /\ cs_data st = None
+    | At i => Pos st (N.to_nat i)
+    | Unspec => Coh st
+    end.
+
+  Lemma Rel_Coh p st : Rel p st -> Coh st.
+  Proof. destruct p; cbn [Rel]; [intros [E _]; unfold Coh; rewrite E; exact I | apply Pos_Coh | auto]. Qed.
+
+  Definition res_ok (spec : option (option entry)) (r : option entry) : Prop :=
+    match spec with Some x => r = x | None => True end.
+
+  Lemma nthN_nat (l : list entry) i : nthN (N.of_nat i) l = nth_error l i.
+  Proof. rewrite nthN_nth_error, Nat2N.id. reflexivity. Qed.
+
+  Lemma es_first : match es_all with e :: _ => Some (0, e) | [] => None end =
+                   match nth_error es_all 0 with Some e => Some (0, e) | None => None end.
+  Proof. destruct es_all; reflexivity. Qed.
+
+  Lemma last_opt_nth {A} (l : list A) : last_opt l = nth_error l (length l - 1).
+  Proof.
+    induction l as [|x l IH]; [reflexivity|]. cbn [last_opt]. destruct l as [|y l]; [reflexivity|].
+    rewrite IH. cbn [length]. replace (S (S (length l)) - 1)%nat with (S (S (length l) - 1)) by lia. reflexivity.
+  Qed.
+
+  Theorem first_refines p st : Rel p st ->
+    exists st' r, cstep ld root levels st OFirst = Done (st', r) /\
+      Rel (fst (aspec es_all p OFirst)) st' /\ res_ok (snd (aspec es_all p OFirst)) r /\
+      cs_loads st' <= cs_loads st + N.of_nat (S D).
+  Proof.
+    intro HR. cbn [cstep]. rewrite c_first_last_abs.
+    destruct (abs_op_spec MFirst false st abs_first (Rel_Coh p st HR)) as (st' & r & E & Hn & Hres).
+    rewrite sroot_first in Hres. destruct Hres as [Hp Hr]. exists st', r. split; [exact E|].
+    cbn [aspec]. pose proof (lseq_nonempty D ltac:(lia)) as Hne. fold es_all in Hne.
+    destruct es_all as [|e0 es'] eqn:Ees; [congruence|]. cbn [at_result fst snd Rel res_ok].
+    split; [exact Hp|]. split; [|lia]. rewrite Hr. fold es_all. rewrite Ees. reflexivity.
+  Qed.
+
+  Theorem last_refines p st : Rel p st ->
+    exists st' r, cstep ld root levels st OLast = Done (st', r) /\
+      Rel (fst (aspec es_all p OLast)) st' /\ res_ok (snd (aspec es_all p OLast)) r /\
+      cs_loads st' <= cs_loads st + N.of_nat (S D).
+  Proof.
+    intro HR. cbn [cstep]. rewrite c_first_last_abs.
+    destruct (abs_op_spec MLast false st abs_last (Rel_Coh p st HR)) as (st' & r & E & Hn & Hres).
+    rewrite sroot_last in Hres. destruct Hres as [Hp Hr]. exists st', r. split; [exact E|].
+    cbn [aspec]. pose proof (lseq_nonempty D ltac:(lia)) as Hne. fold es_all in Hne, Hp, Hr.
+    rewrite last_opt_nth.
+    assert (Hl : (0 < length es_all)%nat) by (destruct es_all; [congruence|cbn [length]; lia]).
+    destruct (nth_error es_all (length es_all - 1)) as [e|] eqn:En; [|apply nth_error_None in En; lia].
+    cbn [at_result fst snd Rel res_ok]. rewrite len_length.
+    replace (N.to_nat (N.of_nat (length es_all) - 1)) with (length es_all - 1)%nat by lia.
+    split; [exact Hp|]. split; [exact Hr|lia].
+  Qed.
+
+  Theorem next_refines p st : Rel p st -> p <> Unspec ->
+    exists st' r, cstep ld root levels st ONext = Done (st', r) /\
+      Rel (fst (aspec es_all p ONext)) st' /\ res_ok (snd (aspec es_all p ONext)) r /\
+      cs_loads st' <= cs_loads st + N.of_nat (S D).
+  Proof.
+    intros HR Hp. destruct p as [|i|]; [| |congruence].
+    - (* never positioned: next is first *)
+      destruct HR as [Ei Ed]. cbn [cstep]. unfold c_next_prev. rewrite Ed.
+      destruct (first_refines Fresh st (conj Ei Ed)) as (st' & r & E & A & B & C).
+      cbn [cstep] in E. exists st', r. split; [exact E|]. cbn [aspec] in *. auto.
+    - cbn [Rel] in HR. cbn [cstep].
+      destruct (c_next_spec st (N.to_nat i) HR) as (st' & r & E & Hn & Hres).
+      exists st', r. split; [exact E|]. cbn [aspec]. fold es_all in Hres.
+      replace (i + 1) with (N.of_nat (S (N.to_nat i))) by lia. rewrite nthN_nat.
+      destruct (Nat.ltb_spec (S (N.to_nat i)) (length es_all)) as [Hlt|Hge].
+      + destruct Hres as [Hp' Hr]. destruct (nth_error es_all (S (N.to_nat i))) as [e|] eqn:En; [|apply nth_error_None in En; lia].
+        cbn [at_result fst snd Rel res_ok]. rewrite Nat2N.id. split; [exact Hp'|]. split; [exact Hr|lia].
+      + destruct Hres as [Hr Hc]. assert (En : nth_error es_all (S (N.to_nat i)) = None) by (apply nth_error_None; lia).
+        rewrite En. cbn [at_result fst snd Rel res_ok]. split; [exact Hc|]. split; [exact Hr|lia].
+  Qed.
+
+  Theorem prev_refines p st : Rel p st -> p <> Unspec ->
+    exists st' r, cstep ld root levels st OPrev = Done (st', r) /\
+      Rel (fst (aspec es_all p OPrev)) st' /\ res_ok (snd (aspec es_all p OPrev)) r /\
+      cs_loads st' <= cs_loads st + N.of_nat (S D).
+  Proof.
+    intros HR Hp. destruct p as [|i|]; [| |congruence].
+    - destruct HR as [Ei Ed]. cbn [cstep]. unfold c_next_prev. rewrite Ed.
+      destruct (last_refines Fresh st (conj Ei Ed)) as (st' & r & E & A & B & C).
+      cbn [cstep] in E. exists st', r. split; [exact E|]. cbn [aspec] in *. auto.
+    - cbn [Rel] in HR. cbn [cstep].
+      destruct (c_prev_spec st (N.to_nat i) HR) as (st' & r & E & Hn & Hres).
+      exists st', r. split; [exact E|]. cbn [aspec]. fold es_all in Hres.
+      destruct (N.eqb_spec i 0) as [->|Hi].
+      + cbn [N.to_nat Nat.ltb Nat.leb] in Hres. destruct Hres as [Hr Hc].
+        cbn [at_result fst snd Rel res_ok]. split; [exact Hc|]. split; [exact Hr|lia].
+      + destruct (Nat.ltb_spec 0 (N.to_nat i)); [|lia]. destruct Hres as [Hp' Hr].
+        replace (i - 1) with (N.of_nat (N.to_nat i - 1)) by lia. rewrite nthN_nat.
+        destruct HR as (lv & dc & o & _ & _ & _ & _ & Hpos). pose proof (positioned_lt _ _ _ Hpos) as Hlt. fold es_all in Hlt.
+        destruct (nth_error es_all (N.to_nat i - 1)) as [e|] eqn:En; [|apply nth_error_None in En; lia].
+        cbn [at_result fst snd Rel res_ok]. rewrite Nat2N.id. split; [exact Hp'|]. split; [exact Hr|lia].
+  Qed.
+
+  Theorem reset_refines p st : Rel p st ->
+    exists st' r, cstep ld root levels st OReset = Done (st', r) /\
+      Rel (fst (aspec es_all p OReset)) st' /\ res_ok (snd (aspec es_all p OReset)) r /\ cs_loads st' = cs_loads st.
+  Proof. intros _. cbn [cstep]. eexists _, _. split; [reflexivity|]. cbn [aspec fst snd Rel res_ok cs_inner cs_data cs_loads]. auto. Qed.
+
+  Theorem current_refines p st : Rel p st -> p <> Unspec ->
+    exists st' r, cstep ld root levels st OCurrent = Done (st', r) /\
+      Rel (fst (aspec es_all p OCurrent)) st' /\ res_ok (snd (aspec es_all p OCurrent)) r /\ cs_loads st' = cs_loads st.
+  Proof.
+    intros HR Hp. destruct p as [|i|]; [| |congruence]; cbn [cstep]; unfold c_current.
+    - destruct HR as [Ei Ed]. rewrite Ed. cbn [bind]. eexists _, _. split; [reflexivity|].
+      cbn [aspec fst snd Rel res_ok]. auto.
+    - pose proof HR as (lv & dc & o & Ei & Hlen & Hcoh & Ed & Hpos). rewrite Ed.
+      pose proof (positioned_current _ _ _ Hpos) as Hcur. cbn [rev] in Hcur.
+      unfold last_current in Hcur. rewrite last_opt_snoc in Hcur. rewrite Hcur. cbn [bind].
+      eexists _, _. split; [reflexivity|]. cbn [aspec fst snd Rel res_ok].
+      split; [exact HR|]. split; [|reflexivity]. fold es_all. rewrite <- (N2Nat.id i) at 2. rewrite nthN_nat. reflexivity.
+  Qed.
 End Refine.
